@@ -158,14 +158,19 @@ snk_chunk(void *drv, const void *p, size_t n)
 }
 
 static size_t plumb_window;
-static unsigned char plumb_win[8];
+static unsigned char plumb_win[2][8];
+static unsigned plumb_bank;
 
+/* a double-buffered source: every call lends the other bank (the one lent before is filled with ee, it is not the
+ * current window any more) */
 static ByteBuffer
 plumb_getbuffer(Source *src)
 {
     (void)src;
     ByteBuffer b;
-    byte_buffer_use(&b, plumb_win, plumb_window);
+    memset(plumb_win[plumb_bank & 1u], 0xEE, sizeof plumb_win[0]);
+    plumb_bank++;
+    byte_buffer_use(&b, plumb_win[plumb_bank & 1u], plumb_window);
     return b;
 }
 
